@@ -196,6 +196,14 @@ func (e *kvElection) Start(ctx context.Context) error {
 		return ErrAlreadyStarted
 	}
 
+	// The previous run may have ended through its context an instant ago, before
+	// its clean-up goroutine got hold of the mutex: give up its claim here.
+	if e.ctx != nil {
+		if onDemote := e.giveUpClaimLocked(e.ctx); onDemote != nil {
+			go onDemote()
+		}
+	}
+
 	e.ctx, e.cancel = context.WithCancel(ctx)
 
 	if e.connectionMonitor != nil {
@@ -223,6 +231,17 @@ func (e *kvElection) Start(ctx context.Context) error {
 			zap.Duration("heartbeat_interval", e.cfg.HeartbeatInterval),
 		)...,
 	)
+
+	// "If the context is cancelled, the election will stop gracefully": when the
+	// context passed to Start ends without a Stop call, all loops end, so nobody
+	// would ever give up a claim held at that moment.
+	runCtx := e.ctx
+	e.wg.Add(1)
+	go func() {
+		defer e.wg.Done()
+		<-runCtx.Done()
+		e.demoteOnContextDone(runCtx)
+	}()
 
 	e.wg.Add(1)
 	go func() {
@@ -648,6 +667,78 @@ func (e *kvElection) becomeFollower() bool {
 	}
 
 	return wasLeader
+}
+
+// demoteOnContextDone gives up the leadership claim of a run whose context was
+// cancelled from outside. Stop and StopWithContext cancel the context and clear the
+// claim in one critical section, so after them there is nothing left to do here. The
+// heartbeat and validation loops have ended with the context: without this, the
+// instance would report leadership for ever while its record expires and another
+// instance takes over. A follower is left as it is (nothing to give up).
+func (e *kvElection) demoteOnContextDone(runCtx context.Context) {
+	e.mu.Lock()
+	if e.ctx != runCtx {
+		// Started again in the meantime: Start has dealt with the old claim.
+		e.mu.Unlock()
+		return
+	}
+	onDemote := e.giveUpClaimLocked(runCtx)
+	e.mu.Unlock()
+
+	if onDemote != nil {
+		onDemote()
+	}
+}
+
+// giveUpClaimLocked clears the claim of a run that has ended through its context
+// and returns the OnDemote callback to invoke, if any. e.mu must be held.
+func (e *kvElection) giveUpClaimLocked(runCtx context.Context) func() {
+	if !e.isLeader.Load() {
+		return nil
+	}
+
+	fromState := StateLeader
+	if s := e.state.Load(); s != nil {
+		if str, ok := s.(string); ok {
+			fromState = str
+		}
+	}
+
+	if e.termCancel != nil {
+		e.termCancel()
+		e.termCancel = nil
+	}
+
+	e.isLeader.Store(false)
+	e.state.Store(StateFollower)
+	e.lastTransition.Store(time.Now())
+	e.recordLeaderDuration()
+	e.leaderStartTime.Store(time.Time{})
+
+	e.recordTransition(fromState, StateFollower)
+	e.updateIsLeaderMetric()
+
+	log := e.getLogger()
+	log.Info("state_transition",
+		append(e.logWithContext(runCtx),
+			zap.String("from_state", fromState),
+			zap.String("to_state", StateFollower),
+			zap.String("reason", "context_cancelled"),
+		)...,
+	)
+
+	onDemote := e.onDemote
+	if onDemote == nil {
+		return nil
+	}
+	return func() {
+		log.Info("leader_demoted",
+			append(e.logWithContext(runCtx),
+				zap.String("reason", "context_cancelled"),
+			)...,
+		)
+		onDemote()
+	}
 }
 
 func (e *kvElection) Stop() error {
